@@ -161,3 +161,13 @@ fn('lemma_invariance.c20_scale_ctx', cls='_Linear', props='C20',
             '[C20,scale.Ainv] ' + both('%s == %s' % (MVP('A_inv', 'p'), MVP('A_inv', 'q'))),
             '[C20,scale.Xty] ' + both('%s == rscaled(k, %s)' % (MVP('Xty', 'p'), MVP('Xty', 'q'))),
             '[C20,scale.beta] ' + both('%s == rscaled(k, %s)' % (MVP('beta', 'p'), MVP('beta', 'q')))])
+
+# ============================================================================ C16: train + test statistics = totals
+fn('lemma_simulator.c16_totals', cls='Simulator', props='C16',
+   params={'sim': 'obj:Simulator'},
+   requires=['INV(sim)', 'sim.is_ordered', 'distinct(sim.arms)'],
+   modifies=['sim.test_indices', 'sim._chunk_size'], chain=True,
+   ensures=['[C16,totals.count] forall_arm(lambda x: implies(mem(sim.arms, x), val(component(result, 1), x, "count") + '
+            'val(component(result, 2), x, "count") == val(component(result, 0), x, "count")))',
+            '[C16,totals.sum] forall_arm(lambda x: implies(mem(sim.arms, x), val(component(result, 1), x, "sum") + '
+            'val(component(result, 2), x, "sum") == val(component(result, 0), x, "sum")))'])
